@@ -12,7 +12,7 @@
 (* transition cost within the configured bound.  `group' events carry the  *)
 (* outcomes of one scenario under all rayon pools / repeats.               *)
 (***************************************************************************)
-EXTENDS Limits, TLC, Json, IOUtils
+EXTENDS Limits, Collision, TLC, Json, IOUtils
 Rec == ndJsonDeserialize(IOEnv.TRACE)
 
 VARIABLES l, st, seen, hdr
@@ -32,6 +32,13 @@ NextSt(k) ==
     [] st = "stroke" /\ k = "PARK" -> "parked"
     [] OTHER -> "bad"
 
+\* the collision verdict of module Collision on the brute-force distances of all pairs (robot with tool and base)
+ToSet(s) == {s[i] : i \in DOMAIN s}
+CfgOf == [tool |-> TRUE, base |-> TRUE, nenv |-> hdr.nenv,
+          table |-> {<<t[1], t[2], t[3]>> : t \in ToSet(hdr.table)}, def_env |-> hdr.def_env, def_robot |-> hdr.def_robot]
+GeoOf(e) == [p \in Relevant(CfgOf) |->
+               LET x == CHOOSE y \in ToSet(e.pairs) : y.a = p[1] /\ y.b = p[2] IN [d |-> x.d, touch |-> x.touch]]
+
 JudgeWp(e) ==
   LET k == KindOf(e) IN
   (IF e.i = 1 /\ ~e.is_start THEN {"C12:path-does-not-begin-at-the-start-configuration"} ELSE {})
@@ -39,6 +46,7 @@ JudgeWp(e) ==
   \cup (IF Has(e, "LIN_INTERP") /\ (Has(e, "TRACE") \/ Has(e, "PARK") \/ Has(e, "LAND") \/ Has(e, "ONBOARDING"))
         THEN {"C12:interpolated-waypoint-carries-the-flag-of-an-original-pose"} ELSE {})
   \cup (IF e.collides THEN {"C12:colliding-waypoint"} ELSE {})
+  \cup (IF Sure(CfgOf, GeoOf(e)) # {} THEN {"C12:waypoint-violates-the-configured-distances"} ELSE {})
   \cup (IF ~OnArcVec(e.from, e.to, e.q, N_AU) /\ EndDistVec(e.from, e.to, e.q, N_AU) >= BandLim THEN {"C12:waypoint-outside-limits"} ELSE {})
   \cup (IF k \in {"LAND", "TRACE", "PARK"} /\ e.fk_nm > 1100 THEN {"C12:original-pose-not-reproduced"} ELSE {})
   \cup (IF k = "LIN" /\ ~hdr.include THEN {"C12:interpolated-waypoint-although-not-requested"} ELSE {})
@@ -57,12 +65,13 @@ Judge(e) ==
     [] e.ev = "group" -> JudgeGroup(e)
     [] OTHER -> {"unknown-event"}
 
-Init == l = 1 /\ st = "idle" /\ seen = 0 /\ hdr = [include |-> TRUE, nsteps |-> 0, windows |-> [direct |-> 0, bisect |-> 0, rrt |-> 0]]
+Init == l = 1 /\ st = "idle" /\ seen = 0 /\ hdr = [include |-> TRUE, nsteps |-> 0, windows |-> [direct |-> 0, bisect |-> 0, rrt |-> 0], nenv |-> 0, table |-> <<>>, def_env |-> 0, def_robot |-> 0]
 Next ==
   /\ l <= Len(Rec)
   /\ LET e == Rec[l]  bad == Judge(e) IN
        /\ (bad = {} \/ PrintT(ToJson([tag |-> "viol", l |-> l, clause |-> bad])))
-       /\ hdr' = IF e.ev = "plan" THEN [include |-> e.include, nsteps |-> e.nsteps, windows |-> e.windows] ELSE hdr
+       /\ hdr' = IF e.ev = "plan" THEN [include |-> e.include, nsteps |-> e.nsteps, windows |-> e.windows, nenv |-> e.nenv, table |-> e.table,
+                                              def_env |-> e.def_env, def_robot |-> e.def_robot] ELSE hdr
        /\ st' = CASE e.ev = "plan" -> "start" [] e.ev = "wp" -> NextSt(KindOf(e)) [] e.ev = "planend" -> "idle" [] OTHER -> st
        /\ seen' = CASE e.ev = "plan" -> 0 [] e.ev = "wp" /\ KindOf(e) = "TRACE" -> seen + 1 [] OTHER -> seen
   /\ TLCSet(1, l)
